@@ -161,8 +161,7 @@ func NewPub(ch *Chain, name string, plain bool) (*Pub, error) {
 			}
 			p.Pub.ServeHTTP(w, r)
 		}))
-		hp := strings.Split(strings.TrimPrefix(p.srv.URL, "http://"), ":")
-		p.Addrs = []multiaddr.Multiaddr{multiaddr.StringCast("/ip4/" + hp[0] + "/tcp/" + hp[1] + "/http")}
+		p.Addrs = []multiaddr.Multiaddr{HTTPAddr(p.srv.URL)}
 		return p, nil
 	}
 	p.Pub, err = ipnisync.NewPublisher(ls, p.Key, ipnisync.WithHTTPListenAddrs("http://127.0.0.1:0"))
